@@ -156,12 +156,27 @@ func buildWorld(rt *rapid.T, label string) *world {
 	if withDB {
 		m.Commit(gen.Pick(rt, []int{0, 1, 2, 3, 64}, label+"lvl"))
 	}
+	// a snapshot of the committed trie (a copy of its top levels over the same storage) may be kept while the
+	// original goes on; proofs are then taken from the snapshot, which still stands for the state it was taken from
+	var snapTrie *wmpt.WeightedMerkleTrie
+	var snapEntries []refwmpt.Entry
+	if withDB && len(m.Model) > 0 && gen.Chance(rt, 35, label+"snapshot") {
+		snapTrie = wmpt.New(m.T.CopyRoot(gen.Pick(rt, []int{0, 1, 2, 3, 64}, label+"snaplvl")), m.DB)
+		snapEntries = wmkit.Entries(m.Model)
+	}
 	// the trie a proof is taken from was reached by a history, not only by inserts
-	if m.Churn(rt, pool, &counter, label+"churn") > 0 {
+	churned := m.Churn(rt, pool, &counter, label+"churn")
+	if churned > 0 {
 		ev.Class("world-reached-by-history", 1)
 	}
 	if failure != "" {
 		rt.Fatalf("HARNESS: building the trie failed: %s", failure)
+	}
+	if snapTrie != nil && churned > 0 {
+		ev.Class("proofs-from-a-snapshot-whose-original-moved-on", 1)
+		w := &world{entries: snapEntries, trie: snapTrie}
+		w.root, w.total = refwmpt.Root(w.entries)
+		return w
 	}
 	w := &world{entries: wmkit.Entries(m.Model), trie: m.T}
 	w.root, w.total = refwmpt.Root(w.entries)
